@@ -12,6 +12,11 @@ Signs_pos    == {[k \in 1..N |-> 1]}
 Signs_quasi  == {[k \in 1..N |-> IF k = N THEN -1 ELSE 1], [k \in 1..N |-> 1]}
 RegOff == [on |-> FALSE, eps |-> RZero, delta |-> RZero]
 RegOn  == [on |-> TRUE, eps |-> RNorm(1, 4), delta |-> RNorm(1, 2)]
+\* edge settings: regularisation enabled but unable to make a pivot nonzero
+RegEps0   == [on |-> TRUE, eps |-> RZero, delta |-> RNorm(1, 2)]
+RegEpsNeg == [on |-> TRUE, eps |-> RNorm(-1, 4), delta |-> RNorm(1, 2)]
+RegDelta0 == [on |-> TRUE, eps |-> RNorm(1, 4), delta |-> RZero]
+Reg_edge     == {RegEps0, RegEpsNeg, RegDelta0}
 Reg_both     == {RegOff, RegOn}
 Reg_off      == {RegOff}
 Reg_on       == {RegOn}
